@@ -251,6 +251,7 @@ def c03_cfg(run, v1, ed):
                 for f in e.source.outgoing_edges:
                     if f.label.type == gtirb.EdgeType.Fallthrough:
                         sites.add(f.target)
+        proxy_sites = {t for t in sites if isinstance(t, gtirb.ProxyBlock)}
         for b in bs:
             if b not in live:
                 continue
@@ -265,6 +266,11 @@ def c03_cfg(run, v1, ed):
                     b.address, sorted(t.address for t in real), sorted(t.address for t in sites if hasattr(t, "address")))))
             if not sites and real:
                 pr.append(("C03/returns-lead-to-the-return-sites-of-the-callers", "block %#x returns to code although nothing calls the function" % b.address))
+            # "... or to an unknown proxy when there are none": with known return sites (and no call that falls through to a proxy) a
+            # return to an unknown proxy is one return too many (the scenario modules start without such mixed returns)
+            if sites and not proxy_sites and rets - real:
+                pr.append(("C03/returns-lead-to-the-return-sites-of-the-callers", "block %#x returns to its call sites %s AND to an unknown proxy" % (
+                    b.address, sorted(t.address for t in real))))
     return pr
 
 
